@@ -2,6 +2,7 @@
 From Coq Require Import List NArith ZArith.
 From TarsV Require Import Gen.Consts Codec.Wire Codec.Skip Codec.Prim Codec.GenCodec Frame.Framing
   Codec.Tup Codec.Packet Codec.TupCorr Codec.TupProofs Codec.PacketProofs Codec.TupCost Codec.TupCostProofs.
+From TarsV Require Import Codec.Corr Gen.Schemas Codec.RoundTrip Codec.RoundTripExamples Codec.PacketCompose.
 (* (TupCorr: the correspondence evaluated on every run is part of this file's closure, so it is rebuilt with it) *)
 Import ListNotations.
 Open Scope N_scope.
@@ -170,14 +171,41 @@ Theorem C05T_tup_nothing_made_up : forall (bs : list N) (kv : list N * list N),
 Proof. exact tup_nothing_made_up. Qed.
 Print Assumptions C05T_tup_nothing_made_up.
 
-(* ---- the server's InvokeTimeout: slice panic exactly below the header size; its reply is a full packet ---- *)
-Theorem C05T_invoke_timeout_short : forall (e : env) (req_sid rsp_sid : nat) (tup_version : Z) (pkg : list N),
-  (length pkg < 4)%nat -> invoke_timeout e req_sid rsp_sid tup_version pkg = DPanic site_slice_bounds.
+(* ---- the server's InvokeTimeout: slice panic exactly below the header size; no reply at all to a one-way request;
+   the reply to a two-way request is a full packet ---- *)
+Theorem C05T_invoke_timeout_short : forall (e : env) (req_sid rsp_sid : nat) (tup_version oneway : Z) (pkg : list N),
+  (length pkg < 4)%nat -> invoke_timeout e req_sid rsp_sid tup_version oneway pkg = DPanic site_slice_bounds.
 Proof. exact invoke_timeout_short. Qed.
 Print Assumptions C05T_invoke_timeout_short.
-Theorem C05T_invoke_timeout_reply : forall (e : env) (req_sid rsp_sid : nat) (tup_version : Z) (max : N) (pkg reply r more : list N),
-  invoke_timeout e req_sid rsp_sid tup_version pkg = DOk reply r ->
-  N.of_nat (length reply) < 4294967296 -> N.of_nat (length reply) <= max ->
-  hdr (reply ++ more) = Some (N.of_nat (length reply)) /\ tars_request max (reply ++ more) = Full (length reply).
-Proof. exact invoke_timeout_reply. Qed.
-Print Assumptions C05T_invoke_timeout_reply.
+Theorem C05T_invoke_timeout_oneway : forall (e : env) (req_sid rsp_sid : nat) (tup_version oneway : Z) (pkg : list N) (req : val) (r : list N),
+  request_unpack e req_sid pkg = DOk req r -> (req_packet_type e req_sid req =? oneway)%Z = true ->
+  invoke_timeout e req_sid rsp_sid tup_version oneway pkg = DOk [] r.
+Proof. exact invoke_timeout_oneway. Qed.
+Print Assumptions C05T_invoke_timeout_oneway.
+Theorem C05T_invoke_timeout_twoway : forall (e : env) (req_sid rsp_sid : nat) (tup_version oneway : Z) (max : N) (pkg : list N) (req : val) (r more : list N),
+  request_unpack e req_sid pkg = DOk req r -> (req_packet_type e req_sid req =? oneway)%Z = false ->
+  let reply := rsp2byte e req_sid rsp_sid tup_version (timeout_rsp e req_sid rsp_sid req) in
+  invoke_timeout e req_sid rsp_sid tup_version oneway pkg = DOk reply r /\
+  (N.of_nat (length reply) < 4294967296 -> N.of_nat (length reply) <= max ->
+   hdr (reply ++ more) = Some (N.of_nat (length reply)) /\ tars_request max (reply ++ more) = Full (length reply)).
+Proof. exact invoke_timeout_twoway. Qed.
+Print Assumptions C05T_invoke_timeout_twoway.
+
+(* ---- composed with the struct-level codec theorems, on the regenerated RequestPacket / ResponsePacket schemas:
+   pack then unpack returns the packet value (up to veq: nil = empty, map order), for every well-typed value;
+   unpack never runs out of fuel on arbitrary bytes ---- *)
+Theorem C05T_request_pack_roundtrip : forall vs, has_type env0 (TStruct rq) (VStruct vs) ->
+  exists v', request_unpack env0 rq (request_pack env0 rq (VStruct vs)) = DOk v' [] /\ veq env0 (TStruct rq) v' (VStruct vs).
+Proof. exact request_pack_roundtrip. Qed.
+Print Assumptions C05T_request_pack_roundtrip.
+Theorem C05T_rsp2byte_roundtrip : forall vs, has_type env0 (TStruct rs) (VStruct vs) ->
+  (rsp_version env0 rs (VStruct vs) =? c_TUPVERSION)%Z = false ->
+  exists v', response_unpack env0 rs (rsp2byte env0 rq rs c_TUPVERSION (VStruct vs)) = DOk v' [] /\ veq env0 (TStruct rs) v' (VStruct vs).
+Proof. exact rsp2byte_roundtrip. Qed.
+Print Assumptions C05T_rsp2byte_roundtrip.
+Theorem C05T_response_unpack_fuel : forall pkg, response_unpack env0 rs pkg <> DFuel.
+Proof. exact response_unpack_fuel. Qed.
+Print Assumptions C05T_response_unpack_fuel.
+Theorem C05T_request_unpack_fuel : forall pkg, request_unpack env0 rq pkg <> DFuel.
+Proof. exact request_unpack_fuel. Qed.
+Print Assumptions C05T_request_unpack_fuel.
